@@ -3,7 +3,9 @@ package c14
 import (
 	"context"
 	"fmt"
+	"runtime"
 	"sync"
+	"sync/atomic"
 	"testing"
 	"testing/synctest"
 
@@ -26,10 +28,10 @@ type firstContactCase struct {
 
 func TestC14_FirstContact(t *testing.T) {
 	pbt.Run(t, pbt.Config{Prop: "C14", Unit: "TestC14_FirstContact", TrackCurrent: true,
-		Rule: "one publisher; 10..40 rounds: 1..2 advertisements are published, the publisher's handler is removed (RemoveHandler; in the first round none exists yet), and 2..8 goroutines released together call SyncAdChain for it (they run in parallel inside the bubble; the scheduler picks the interleaving); oracle after every round at exact quiescence: every call returned the head, exactly one notification was delivered (for the head, counting exactly the new advertisements), every new advertisement was handed to the hook exactly once, and never more than one block request of the publisher was in flight. Non-trivial: always; distinct by case.",
+		Rule: "one publisher; 100..300 rounds: 1..2 advertisements are published, the publisher's handler is removed (RemoveHandler; in the first round none exists yet), and 2..4 goroutines that meet at a spin barrier call SyncAdChain for it at the same instant (they run in parallel inside the bubble; the scheduler picks the interleaving); oracle after every round at exact quiescence: every call returned the head, exactly one notification was delivered (for the head, counting exactly the new advertisements), every new advertisement was handed to the hook exactly once, and never more than one block request of the publisher was in flight. Non-trivial: always; distinct by case.",
 		Assumptions: []string{"interleavings are sampled by the Go scheduler"},
 	}, func(t *rapid.T) firstContactCase {
-		return firstContactCase{Workers: rapid.IntRange(2, 8).Draw(t, "workers"), Rounds: rapid.IntRange(10, 40).Draw(t, "rounds"), New: rapid.IntRange(1, 2).Draw(t, "new")}
+		return firstContactCase{Workers: rapid.IntRange(2, 4).Draw(t, "workers"), Rounds: rapid.IntRange(100, 300).Draw(t, "rounds"), New: rapid.IntRange(1, 2).Draw(t, "new")}
 	}, func(c firstContactCase) (res pbt.Result) {
 		res.NonTrivial = true
 		var viol string
@@ -58,15 +60,19 @@ func TestC14_FirstContact(t *testing.T) {
 					s.S.RemoveHandler(p.ID)
 				}
 				ev0, hk0 := s.NEvents(), s.NHooks()
-				start := make(chan struct{})
+				var ready atomic.Int32 // spin barrier: all callers enter the library within nanoseconds of each other
 				var wg sync.WaitGroup
 				errs := make(chan string, c.Workers)
 				for g := 0; g < c.Workers; g++ {
 					wg.Add(1)
 					go func() {
 						defer wg.Done()
-						<-start
-						got, err := s.S.SyncAdChain(ctx, p.Info())
+						info := p.Info()
+						ready.Add(1)
+						for ready.Load() < int32(c.Workers) {
+							runtime.Gosched()
+						}
+						got, err := s.S.SyncAdChain(ctx, info)
 						if err != nil {
 							errs <- "SyncAdChain: " + err.Error()
 						} else if got != head {
@@ -74,8 +80,6 @@ func TestC14_FirstContact(t *testing.T) {
 						}
 					}()
 				}
-				synctest.Wait()
-				close(start)
 				wg.Wait()
 				synctest.Wait()
 				select {
